@@ -117,6 +117,7 @@ type interp struct {
 	onceDone    map[*value]bool
 	stubCalls   map[string]int
 	jsonBinds   []jsonBind
+	harnessStubs map[string][]value
 	atomicVals  map[*value]value
 	lastTime    *Term
 	reachedNow  []string
@@ -156,6 +157,7 @@ func (in *interp) resetPath() {
 	in.onceDone = map[*value]bool{}
 	in.stubCalls = map[string]int{}
 	in.jsonBinds = nil
+	in.harnessStubs = map[string][]value{}
 	in.atomicVals = map[*value]value{}
 	in.lastTime = nil
 	in.reachedNow = nil
